@@ -21,6 +21,8 @@ def gen_call(ctx: Ctx, M):
         rng.shuffle(shared)
         if rng.random() < 0.3 and len(shared) > 1:
             shared = shared[:-1]
+        if rng.random() < 0.12:
+            shared = []              # frozen trunk: only the heads are trained
         m_shared = shared
     if rng.random() < 0.3:
         tasks, m_tasks = None, [list(tl) for tl in M.task_leaves]
@@ -41,7 +43,7 @@ def gen_call(ctx: Ctx, M):
     else:
         agg = ("probe", [rng.choice([-2, -1, 1, 2, 3]) for _ in range(T)])
     chunk = rng.choice([None, None, 1, 2, T, T + 1])
-    retain = True if M.nested_features() else rng.random() < 0.3
+    retain = True if (M.nested_features() or M.multi_output_features()) else rng.random() < 0.3
     pre = rand_pre(rng, P, P.leaves())
     gen = rng.random() < 0.2
     return dict(gen=gen, losses=M.losses, features=M.features, tasks=tasks, m_tasks=m_tasks, shared=shared,
@@ -77,6 +79,7 @@ def one(ctx: Ctx, M, call, dtypes):
         ctx.count("defaults", f"shared={'None' if call['shared'] is None else 'explicit'},"
                               f"tasks={'None' if call['tasks'] is None else 'explicit'}")
         ctx.count("outcome", rerr or "ok")
+        ctx.count("explicit_empty_shared", call["shared"] == [])
         ctx.count("params_as_one_shot_iterables", call["gen"])
         ctx.count("param_shared_by_two_tasks",
                   len({p for tp in call["m_tasks"] for p in tp}) < sum(len(tp) for tp in call["m_tasks"]))
